@@ -2,7 +2,7 @@
 import ast
 
 from ..model import dotted, src, calls_in, AnalysisError
-from ..common import (fpaths, any_guard, status_key, const_str, same_expr, peel, actual, fxp_names_in)
+from ..common import (fpaths, any_guard, status_key, const_str, same_expr, peel, actual, fxp_names_in, effective_owners)
 from .. import anchors as A
 
 FLAGS = ("overflow", "underflow", "inaccuracy")
@@ -222,7 +222,7 @@ def sticky_and_ownership(ck, rule, owners=None):
                 if sk:
                     n += 1
                     base, key = sk
-                    inreset = f.name in ("reset", "__init__") and f.cls == "Fxp"
+                    inreset = effective_owners(prog, f) <= {"objects.Fxp.reset", "objects.Fxp.__init__"}
                     if inreset:
                         continue
                     if key is None:
@@ -230,7 +230,7 @@ def sticky_and_ownership(ck, rule, owners=None):
                         ck.bad(rule, f, "status flags are written under their literal names by their owners", "%s writes %s (computed key)" % (f.qualname, src(t)), node,
                                "a computed key can raise overflow/underflow outside the overflow handler: the flag no longer reports what happened in a write")
                         continue
-                    if key in allowed and f.qualname not in allowed[key] and not (f.parent and f.parent.qualname in allowed[key]):
+                    if key in allowed and not (effective_owners(prog, f) <= allowed[key]) and not (f.parent and f.parent.qualname in allowed[key]):
                         ck.bad(rule, f, "status['%s'] is written only by %s" % (key, sorted(x.split('.')[-1] for x in allowed[key])),
                                "%s writes status['%s']" % (f.qualname, key), node,
                                "a flag raised outside its owner breaks 'iff': it no longer reports what happened in a write")
@@ -249,7 +249,7 @@ def sticky_and_ownership(ck, rule, owners=None):
                         ck.note("status key %r written in %s" % (key, f.qualname))
                 elif isinstance(t, ast.Attribute) and t.attr == "status":
                     n += 1
-                    if not (f.cls == "Fxp" and f.name in ("__init__",)):
+                    if not (effective_owners(prog, f) <= {"objects.Fxp.__init__"}):
                         ck.bad(rule, f, "the status record is replaced only by the constructor",
                                "%s = %s" % (src(t), src(val)[:80]), node,
                                "rebinding the record drops keys or flags (reset() must clear the three flags in place)")
